@@ -214,6 +214,8 @@ func Pred(id string, ctx context.Context, args ...uint64) bool {
 	case Goexit:
 		H.End(id, d.Kind)
 		runtime.Goexit()
+	case Cancel:
+		H.CancelCtx()
 	}
 	H.End(id, d.Kind)
 	return d.Kind != False
@@ -223,4 +225,18 @@ func Pred(id string, ctx context.Context, args ...uint64) bool {
 func Tr[T any](id string, k int, v T) T {
 	H.Arg(id, k)
 	return v
+}
+
+// Mut runs f (which changes a variable the caller used in an EARLIER argument
+// of the same directive) and returns v: a later argument whose evaluation has
+// a side effect on an earlier one.
+func Mut[T any](f func(), v T) T {
+	f()
+	return v
+}
+
+// Zero sets *p to the zero value of its type.
+func Zero[T any](p *T) {
+	var z T
+	*p = z
 }
